@@ -121,3 +121,37 @@ impl<F: Fn(&mut fmt::Formatter<'_>) -> fmt::Result> fmt::Debug for Fm<F> {
 }
 impl<const K: u8> From<C<K>> for A<K> { fn from(c: C<K>) -> Self { A(c.0) } }
 impl<const K: u8> Show for &'static A<K> { fn sv(&self) -> String { format!("&A{}:{}", K, self.0) } }
+
+// ---- C11: compile-time probes "does `T: Trait` hold?" (an inherent const shadows a trait const when its bounds hold)
+pub struct Good(pub u8);
+pub struct Bad(pub u8);
+impl PartialEq for Good { fn eq(&self, o: &Self) -> bool { self.0 == o.0 } }
+impl Eq for Good {}
+impl PartialOrd for Good { fn partial_cmp(&self, o: &Self) -> Option<Ordering> { Some(self.0.cmp(&o.0)) } }
+impl Ord for Good { fn cmp(&self, o: &Self) -> Ordering { self.0.cmp(&o.0) } }
+impl Hash for Good { fn hash<H: Hasher>(&self, h: &mut H) { h.write_u8(self.0) } }
+impl fmt::Debug for Good { fn fmt(&self, f: &mut fmt::Formatter<'_>) -> fmt::Result { write!(f, "G{}", self.0) } }
+impl Clone for Good { fn clone(&self) -> Self { Good(self.0) } }
+impl Copy for Good {}
+impl Default for Good { fn default() -> Self { Good(0) } }
+pub struct Probe<T: ?Sized>(pub ::core::marker::PhantomData<T>);
+pub trait ProbeFallback { const YES: bool = false; }
+impl<T: ?Sized> ProbeFallback for Probe<T> {}
+macro_rules! probe_trait { ($name:ident, $($bound:tt)*) => {
+    pub mod $name { pub struct P<T: ?Sized>(pub ::core::marker::PhantomData<T>);
+        impl<T: ?Sized + $($bound)*> P<T> { pub const YES: bool = true; }
+        pub trait Fallback { const YES: bool = false; } impl<T: ?Sized> Fallback for P<T> {} } } }
+probe_trait!(p_partial_eq, ::core::cmp::PartialEq);
+probe_trait!(p_eq, ::core::cmp::Eq);
+probe_trait!(p_partial_ord, ::core::cmp::PartialOrd);
+probe_trait!(p_ord, ::core::cmp::Ord);
+probe_trait!(p_hash, ::core::hash::Hash);
+probe_trait!(p_debug, ::core::fmt::Debug);
+probe_trait!(p_clone, ::core::clone::Clone);
+probe_trait!(p_copy, ::core::marker::Copy);
+probe_trait!(p_default, ::core::default::Default);
+pub fn g_eq<T>(_: &T, _: &T) -> bool { true }
+pub fn g_cmp<T>(_: &T, _: &T) -> Ordering { Ordering::Equal }
+pub fn g_pcmp<T>(_: &T, _: &T) -> Option<Ordering> { None }
+pub fn g_hash<T, H: Hasher>(_: &T, _: &mut H) {}
+pub fn g_fmt<T>(_: &T, f: &mut fmt::Formatter<'_>) -> fmt::Result { f.write_str("g") }
